@@ -237,7 +237,19 @@ def run(ctx):
     grp = []
     for out in runner.pmap(work_grouped, [(t, u, L2, RED) for t in RED for u in RED], chunksize=1):
         grp.extend(out)
-    grp = sorted(set(grp) - set(short), key=lambda s: (len(s), s))
+    # third family (structural instead of by token count): every bracket/parenthesis group of nesting depth <= 2 over <= 2 items, placed under an ellipsis
+    # in 4 contexts, e.g. '([a b])...', '[(a) b]...', 'a ((a) [b])... b'
+    level0 = ["a", "b"]
+    seq1 = level0 + [f"{x} {y}" for x in level0 for y in level0]
+    level1 = level0 + [f"[{q}]" for q in seq1] + [f"({q})" for q in seq1]
+    seq2 = level1 + [f"{x} {y}" for x in level1 for y in level1]
+    groups = sorted({f"[{q}]" for q in seq2} | {f"({q})" for q in seq2})
+    structural = []
+    for gname in groups:
+        for c in ("{}...", "a {}...", "{}... b", "b {}... a"):
+            s_ = c.format(gname)
+            if parse_outcome(s_)[0][0] == "ok": structural.append(s_)
+    grp = sorted((set(grp) | set(structural)) - set(short), key=lambda s: (len(s), s))
     ohist = collections.Counter(); calls = 0
     for out in runner.pmap(work_ops, list(runner.chunks(short + grp, 8)), chunksize=1):
         calls += out["calls"]; ohist.update(out["hist"])
